@@ -26,6 +26,9 @@ CONSTANTS MaxObj, MaxSteps,
           CreateClasses,      \* classes Create may instantiate
           QueryClasses,       \* classes Query may ask for
           AllowClear, AllowRelate, AllowSweep, AllowQueryX,
+          CopyModes,          \* ways other than calling the class in which a new instance comes into being from a live one:
+                              \* copy | deepcopy | replace | from_dao (ORM reconstruction)  - {} switches CreateFrom off
+          UnregisteredModes,  \* deviation: creation modes whose allocation bypasses Symbol.__new__ ({} = as implemented)
           Hist,               \* TRUE = keep the history variable (generator configs)
           PopIdOfNone, StaleRelationIndex, DupSubclassList, StrongExprTable
 
@@ -116,6 +119,16 @@ Create(c) ==
   /\ SetG(AddNode(G, next, c))
   /\ UNCHANGED <<fld, dead, deadR, facts, pinned, lastQ, lastRel>>
   /\ Log([a |-> "create", c |-> c, o |-> next, live |-> Alive \cup {next}, liveR |-> AliveR \cup {next}])
+
+\* a new instance of p's class that is not made by calling the class: copy.copy(p), copy.deepcopy(p), dataclasses.replace(p),
+\* or to_dao(p).from_dao().  Every such instance is an instance of its type like any other (R); the registration happens in
+\* Symbol.__new__, which all of these paths go through as implemented.
+CreateFrom(p, m) ==
+  /\ next <= MaxObj /\ p \in roots /\ p \notin dead
+  /\ next' = next + 1 /\ cls' = Append(cls, cls[p]) /\ roots' = roots \cup {next} /\ tracked' = tracked \cup {next}
+  /\ IF m \in UnregisteredModes THEN UnchangedG ELSE SetG(AddNode(G, next, cls[p]))
+  /\ UNCHANGED <<fld, dead, deadR, facts, pinned, lastQ, lastRel>>
+  /\ Log([a |-> "create", c |-> cls[p], o |-> next, mode |-> m, src |-> p, live |-> Alive \cup {next}, liveR |-> AliveR \cup {next}])
 
 Drop(o) ==
   /\ o \in roots
@@ -229,6 +242,7 @@ Clear ==
 
 Next == /\ steps < MaxSteps /\ steps' = steps + 1
         /\ \/ \E c \in CreateClasses : Create(c)
+           \/ \E p \in roots, m \in CopyModes : CreateFrom(p, m)
            \/ \E o \in roots : Drop(o)
            \/ Collect
            \/ Sweep
